@@ -1,17 +1,18 @@
 """Development runner for the legacy-bitstream cases (slice eb follow-up): props/legacycases.py through the engine.
 `python3 tools/check.py --property LEGDEV --tier quick|thorough`."""
 from vlib.engine import Case
-from . import legacycases
+from . import legacycases, meshlegacy
 
 ID = "LEGDEV"
 LEVEL = "proof"
 LEAN_MODULES = []
-RULE = "props/legacycases.py: legacy files (plain / skip decodes), header rewrites, corruptions, patched legacy schemes"
+RULE = ("props/legacycases.py: legacy files (plain / skip decodes), header rewrites, corruptions, patched legacy schemes; "
+        "props/meshlegacy.py: 2.2 mesh streams re-laid out for every version 1.0 .. 2.1 (self-checked), skip decodes, corruptions")
 TIMEOUT = 3000
 
 
 def generate(rng, tier):
-    return legacycases.cases(rng, tier)
+    return legacycases.cases(rng, tier) + meshlegacy.cases(rng, tier)
 
 
 def replay_cases(lines):
